@@ -70,6 +70,16 @@ ec_backend_t ec_backends_supported[] = {
 int num_supported_backends = 0;
 char *ec_backends_supported_str[EC_BACKENDS_MAX];
 
+
+#ifdef LIBERASURECODE_VERIF
+/* verification hook: a harness-installed callback reached at the points where
+ * the registry / the shared GF tables are accessed (compiled out otherwise) */
+extern void (*liberasurecode_verif_yield)(const char *point);
+#define VERIF_YIELD(p) do { if (liberasurecode_verif_yield) liberasurecode_verif_yield(p); } while (0)
+#else
+#define VERIF_YIELD(p) do { } while (0)
+#endif
+
 /* =~=*=~==~=*=~==~=*=~= EC backend instance management =~=*=~==~=*=~==~=*= */
 
 /* Registered erasure code backend instances */
@@ -90,6 +100,7 @@ static ec_backend_t liberasurecode_backend_instance_get_by_desc_locked(int desc)
 {
     struct ec_backend *b = NULL;
     SLIST_FOREACH(b, &active_instances, link) {
+        VERIF_YIELD("l_cmp");
         if (b->idesc == desc)
             break;
     }
@@ -108,7 +119,9 @@ ec_backend_t liberasurecode_backend_instance_get_by_desc(int desc)
     struct ec_backend *b = NULL;
     if (rwlock_rdlock(&active_instances_rwlock) != 0)
         return NULL;
+    VERIF_YIELD("l_lock");
     b = liberasurecode_backend_instance_get_by_desc_locked(desc);
+    VERIF_YIELD("l_unlock");
     rwlock_unlock(&active_instances_rwlock);
     return b;
 }
@@ -143,16 +156,20 @@ int liberasurecode_backend_instance_register(ec_backend_t instance)
 
     rc = rwlock_wrlock(&active_instances_rwlock);
     if (rc == 0) {
+        VERIF_YIELD("c_wr");
         SLIST_INSERT_HEAD(&active_instances, instance, link);
+        VERIF_YIELD("c_ins");
         desc = liberasurecode_backend_alloc_desc();
         if (desc <= 0)
             goto register_out;
         instance->idesc = desc;
+        VERIF_YIELD("c_desc");
     } else {
         goto exit;
     }
 
 register_out:
+    VERIF_YIELD("c_un");
     rwlock_unlock(&active_instances_rwlock);
 exit:
     return desc;
@@ -169,10 +186,13 @@ int liberasurecode_backend_instance_unregister(ec_backend_t instance)
 
     rc = rwlock_wrlock(&active_instances_rwlock);
     if (rc == 0) {
+        VERIF_YIELD("d_wr");
         SLIST_REMOVE(&active_instances, instance, ec_backend, link);
+        VERIF_YIELD("d_rm");
     }  else {
         goto exit;
     }
+    VERIF_YIELD("d_un");
     rwlock_unlock(&active_instances_rwlock);
 
 exit:
@@ -360,6 +380,7 @@ int liberasurecode_instance_destroy(int desc)
     /* Remove instance from registry */
     rc = liberasurecode_backend_instance_unregister(instance);
     if (rc == 0) {
+        VERIF_YIELD("d_free");
         free(instance);
     }
 
